@@ -30,7 +30,8 @@ from .harness import call_real, canon_value, same
 LEVEL = "exploration"
 RULE = ("systematic sweep over apply x lamb x shuffle x {mixup,cutmix,mixed} x driver {KDMixCollator, KDComposeCollator, KDComposeCollator "
         "behind a harness collator that hands image/label on in a non-contiguous layout (NHWC / channels_last / strided slices / reversed "
-        "storage; strided / transposed / expanded labels), MAEFinetuneMixCollator, DataLoader(collate_fn)} followed by random cases: B in 1..9 (flip mostly even), C in 1..4, "
+        "storage; strided / transposed / expanded labels), MAEFinetuneMixCollator, DataLoader(collate_fn), KDMixCollator.collate(batch, mode, ctx) called directly with ONE caller-owned ctx dict "
+        "reused over the whole history} followed by random cases: B in 1..9 (flip mostly even), C in 1..4, "
         "H,W in 1..24 (1-pixel, non-square), one-hot (2..10 classes, unique or repeated; float32 / float64 / float16 / "
         "int64 as produced by F.one_hot), label-smoothed (float32 / float64), binary int/float/soft-scalar labels "
         "(python numbers, float32 / float64 / int64 tensors) or no label item, dataset modes = random permutations of x [class] [index aux meta "
@@ -51,6 +52,9 @@ ASSUMPTIONS = [
     "(class docstring); that lamb_mode='sample' weights differ and apply_mode are not judged",
     "expanded (stride-0) labels are driven only where all samples share the label and the label dtype is not float32: a float32 label is mixed in "
     "place, which torch refuses for overlapping memory on /repo as well (RuntimeError) - outside the claim",
+    "collate driver: the caller's ctx dict is updated with the default-collated dataset ctx before each call and still holds the previous call's "
+    "'lambda' / 'use_cutmix' / 'apply'; only ctx['lambda'] is judged (it must be the weight of the batch just collated); two mix collators chained "
+    "in one compose pipeline are not driven (a double mix is not decodable by this oracle)",
     "histories: batches of one history share mode, label kind/dtype and collator instance; a flip refusal of an odd batch does not end the history",
     "shuffle_mode='random' is read as a permutation of the batch (DESIGN C10: a bijection shared by image and label); fixed points are allowed",
     "flip with an odd batch size is an enumerated refusal class (the collator's own assert); if the call returns, the oracle is applied with p(i)=B-1-i",
@@ -61,7 +65,7 @@ ASSUMPTIONS = [
     "statistical clause (random shuffling really moves samples): only batches with B>=5, pure mixup, alpha>=1, 6-bit ids count; a correct "
     "implementation leaves such a batch unmoved with probability < 0.02, the clause fires only if >= 8 such batches were all unmoved (< 2.6e-14)",
 ]
-MONITORS = ["noncontiguous_input_batches_checked", "reconfigured_batches_checked", "earlier_outputs_rechecked", "mix_kind_checked",
+MONITORS = ["reused_ctx_calls_checked", "noncontiguous_input_batches_checked", "reconfigured_batches_checked", "earlier_outputs_rechecked", "mix_kind_checked",
             "batch_lambda_shared_checked", "history_batches_checked", "repeated_item_copies_compared", "batches_checked", "samples_checked", "cutmix_box_decoded", "mixup_weight_decoded", "label_weight_decoded",
             "image_label_weight_compared", "ctx_lambda_compared", "partner_identified_from_output", "passthrough_items_compared",
             "layout_checked", "binary_labels_checked", "random_bijection_checked", "non_float32_label_batches_checked"]
@@ -127,7 +131,7 @@ def _gen_cfg(rng, apply_mode, lamb_mode, shuffle_mode, split):
 def _gen_case(rng, combo=None):
     apply_mode, lamb_mode, shuffle_mode, split, driver = combo or (
         rng.choice(APPLY), rng.choice(LAMB), rng.choice(SHUFFLE), rng.choice(SPLITS),
-        rng.choice(["single", "single", "single", "compose", "layout", "layout", "loader", "mae"]))
+        rng.choice(["single", "single", "single", "compose", "layout", "layout", "loader", "mae", "collate", "collate"]))
     if driver == "mae":
         apply_mode, lamb_mode, shuffle_mode, split = "batch", "batch", "flip", "mixed"
         cfg = {"mixup_alpha": 0.8, "cutmix_alpha": 1.0, "mixup_p": 0.5, "cutmix_p": 0.5}
@@ -172,13 +176,13 @@ def _gen_case(rng, combo=None):
                 dup = rng.choice([it for it in items if it != "ctx.src"] + ["x"] + (["class"] if want_class else []))
                 items.insert(rng.randint(0, len(items)), dup)
         mode = " ".join(items)
-        return_ctx = rng.random() < 0.6
+        return_ctx = rng.random() < 0.6 or driver == "collate"  # collate driver: the caller owns (and reuses) the ctx dict
         label = _gen_label(rng, B, want_class)
     spec = {"driver": driver, "cfg": cfg, "split": split, "B": B, "C": C, "H": H, "W": W, "bits": bits, "ids": ids, "order": order,
             "label": label, "mode": mode, "return_ctx": return_ctx, "rng_seed": rng.randrange(2 ** 31)}
     if driver == "layout":
         spec["layout"] = [rng.choice(IMAGE_LAYOUTS), rng.choice(LABEL_LAYOUTS)]
-    if rng.random() < 0.3:
+    if rng.random() < (0.75 if driver == "collate" else 0.3):
         spec["more"] = _gen_more(rng, spec)
     if B == 1 and not spec.get("more"):
         spec["_trivial"] = True
@@ -242,7 +246,7 @@ def _gen_more(rng, spec):
 def gen_cases(run):
     n = run.n(4800, 280000)
     rng = run.rng
-    combos = [(a, l, s, sp, d) for d in ["single", "compose", "layout", "loader"] for a in APPLY for l in LAMB for s in SHUFFLE for sp in SPLITS]
+    combos = [(a, l, s, sp, d) for d in ["single", "compose", "layout", "loader", "collate"] for a in APPLY for l in LAMB for s in SHUFFLE for sp in SPLITS]
     combos += [("batch", "batch", "flip", "mixed", "mae")] * 6
     if run.shard is not None:
         rng.shuffle(combos)
@@ -261,6 +265,8 @@ def _build_collator(spec):
     if spec["driver"] == "layout":
         return KDComposeCollator(collators=[make_layout_collator(*spec["layout"]), KDMixCollator(**spec["cfg"])], dataset_mode=spec["mode"],
                                  return_ctx=spec["return_ctx"]).set_rng(rng)
+    if spec["driver"] == "collate":  # KDMixCollator.collate(batch, dataset_mode, ctx) is called directly with a caller-owned ctx dict
+        return KDMixCollator(**spec["cfg"]).set_rng(rng)
     return KDMixCollator(**spec["cfg"], dataset_mode=spec["mode"], return_ctx=spec["return_ctx"]).set_rng(rng)
 
 
@@ -314,7 +320,7 @@ def run_case(run, spec):
     first = {k: spec[k] for k in ("B", "C", "H", "W", "ids", "order", "label")}
     earlier = []  # [(batch number, (B,C,H,W), [reference images])] of the batches this collator instance has already collated
     emitted = []  # [(batch number, names, objects handed out, snapshot at emission)]
-    state = {"cfg": spec["cfg"], "split": spec["split"], "reconfigured": False}
+    state = {"cfg": spec["cfg"], "split": spec["split"], "reconfigured": False, "shared_ctx": {}}
     for k, b in enumerate([first] + list(spec.get("more", []))):
         if b.get("recfg"):
             _reconfigure(coll, state, b["recfg"])
@@ -352,7 +358,17 @@ def _run_batch(run, spec, b, coll, k, earlier, emitted, state):
     ref_items = [ref] if len(items) == 1 else list(ref)
 
     refusal = "flip-odd-batch" if shuffle_mode == "flip" and B % 2 == 1 else None
-    if spec["driver"] == "loader":
+    if spec["driver"] == "collate":
+        # the SAME ctx dict object is handed to every collate call of the history (it still holds the keys of the previous call);
+        # after the call it must describe the batch just collated
+        collated, ctx_c = default_collate([mw[q] for q in order])
+        shared = state["shared_ctx"]
+        shared.update(ctx_c)
+        arg = collated if len(items) == 1 else tuple(collated)
+        fn = lambda: (coll.collate(arg, mode, shared), shared)
+        if "lambda" in shared:
+            run.count("reused_ctx_calls_checked")
+    elif spec["driver"] == "loader":
         fn = lambda: next(iter(DataLoader(mw, batch_size=B, sampler=list(order), collate_fn=coll)))
     else:
         batch = [mw[q] for q in order]
